@@ -2,6 +2,7 @@ package neo4j
 
 import (
 	"bytes"
+	"encoding/binary"
 	"fmt"
 	"log/slog"
 	"slices"
@@ -213,7 +214,17 @@ type nodeUpdates struct {
 type nodeUpdateByMap map[string]*nodeUpdates
 
 func (s nodeUpdateByMap) add(update graph.NodeUpdate) {
-	updateKey := newUpdateKey(update.IdentityKind, update.IdentityProperties, update.Node.Kinds)
+	// The statement of a batch carries the kinds and the deleted kinds of its first update: updates may only share a
+	// batch when both agree. newUpdateKey concatenates its parts, so the kinds are repeated here with separators
+	// (kind names are labels and contain no control characters) and the deleted kinds, which it leaves out, are added
+	kinds := update.Node.Kinds.Strings()
+	sort.Strings(kinds)
+
+	deletedKinds := update.Node.DeletedKinds.Strings()
+	sort.Strings(deletedKinds)
+
+	updateKey := newUpdateKey(update.IdentityKind, update.IdentityProperties, update.Node.Kinds) +
+		"\x00" + strings.Join(kinds, "\x00") + "\x01" + strings.Join(deletedKinds, "\x00")
 
 	// `set n += {key: null}` removes the property: deleted properties are sent as nulls
 	properties := update.Node.Properties.Map
@@ -254,7 +265,15 @@ func digestKeys(digester *xxhash.Digest, keys map[string]struct{}) {
 
 	slices.Sort(sortedKinds)
 
+	// Frame the set with its size and every key with its length: without framing the digest of the added kinds
+	// runs into the digest of the deleted kinds ({add X} and {delete X} would share a batch) and adjacent keys run
+	// into each other (["ab","c"] and ["a","bc"])
+	var lengthPrefix [binary.MaxVarintLen64]byte
+
+	digester.Write(lengthPrefix[:binary.PutUvarint(lengthPrefix[:], uint64(len(sortedKinds)))])
+
 	for _, nextKind := range sortedKinds {
+		digester.Write(lengthPrefix[:binary.PutUvarint(lengthPrefix[:], uint64(len(nextKind)))])
 		digester.WriteString(nextKind)
 	}
 }
